@@ -6,6 +6,8 @@ props = [json.loads(l) for l in open(os.path.join(V, "properties.jsonl"))]
 cfgs = {}
 for f in sorted(glob.glob(os.path.join(V, "checks", "C*.json"))):
     c = json.load(open(f))
+    if not isinstance(c, dict) or "property" not in c:
+        continue  # e.g. checks/C30_sites.json (site classification, not a check configuration)
     cfgs[c["property"]] = c
 na_reasons = {}
 nap = os.path.join(V, "checks", "not_applicable.json")
